@@ -451,23 +451,81 @@ Inductive wire_delivers : fkind -> fval -> wseg -> Prop :=
 | wd_opt t x s e :
     parse_scalar t s = Some x -> deliverable s -> seg_enc s e ->
     wire_delivers (KScalar t POpt) (FvOpt (Some x)) (WOne e)
-| wd_seq l es :
-    Forall2 (fun s e => deliverable s /\ seg_enc s e) l es ->
-    wire_delivers KSeq (FvSeq l) (WMany es).
+| wd_seq t xs es :
+    Forall2 (fun x e => exists s, parse_scalar t s = Some x /\ deliverable s /\ seg_enc s e) xs es ->
+    wire_delivers (KSeq t) (FvSeq xs) (WMany es).
+
+(* a typed sequence: delivered iff EVERY element parses, and then it is the
+   list of the parsed elements, in order *)
+Theorem from_map_elems_ok_iff t : forall l xs,
+  from_map_elems t l = Ok xs <-> Forall2 (fun s x => parse_scalar t s = Some x) l xs.
+Proof.
+  induction l as [|s l IH]; intros xs; cbn [from_map_elems].
+  - split; [intros [= <-]; constructor|intros H; inversion H; reflexivity].
+  - unfold from_map_scalar at 1. cbn [as_value bind]. split.
+    + destruct (parse_scalar t s) as [x|] eqn:E.
+      * replace (match t with TEnum _ => Ok x | _ => Ok x end) with (@Ok merr _ x) by (destruct t; reflexivity).
+        cbn [bind]. destruct (from_map_elems t l) as [xs'|e] eqn:El; cbn [bind]; [|discriminate].
+        intros [= <-]. constructor; [exact E|]. apply IH. reflexivity.
+      * destruct t; discriminate.
+    + intros H. inversion H as [|? x ? xs' Hx Hrest]; subst. rewrite Hx.
+      replace (match t with TEnum _ => Ok x | _ => Ok x end) with (@Ok merr _ x) by (destruct t; reflexivity).
+      cbn [bind]. apply IH in Hrest. rewrite Hrest. reflexivity.
+Qed.
+
+Lemma from_map_scalar_err t s e :
+  from_map_scalar t (VOne s) = Err e -> e = MParse \/ e = MUnknownVariant.
+Proof.
+  unfold from_map_scalar. cbn [as_value bind].
+  destruct (parse_scalar t s); destruct t; try discriminate; intros [= <-]; auto.
+Qed.
+
+Lemma from_map_elems_err t : forall l e,
+  from_map_elems t l = Err e -> e = MParse \/ e = MUnknownVariant.
+Proof.
+  induction l as [|s l IH]; intros e; cbn [from_map_elems]; [discriminate|].
+  destruct (from_map_scalar t (VOne s)) as [x|e0] eqn:E; cbn [bind].
+  - destruct (from_map_elems t l) as [xs|e1] eqn:El; cbn [bind]; [discriminate|].
+    intros [= <-]. eapply IH. reflexivity.
+  - intros [= <-]. eapply from_map_scalar_err, E.
+Qed.
+
+(* C10: ONE element that does not parse - first, middle or last, alone or
+   among valid ones - fails the whole sequence *)
+Theorem from_map_elems_bad t : forall l s,
+  In s l -> parse_scalar t s = None -> exists e, from_map_elems t l = Err e.
+Proof.
+  intros l s Hin Hbad. destruct (from_map_elems t l) as [xs|e] eqn:E; [|eauto].
+  exfalso. apply from_map_elems_ok_iff in E. clear -E Hin Hbad.
+  induction E as [|s' x l xs Hx _ IH]; [destruct Hin|].
+  destruct Hin as [->|Hin]; [congruence|exact (IH Hin)].
+Qed.
+
+Lemma seq_delivers_decode t xs es :
+  Forall2 (fun x e => exists s, parse_scalar t s = Some x /\ deliverable s /\ seg_enc s e) xs es ->
+  exists l, decode_segments es = Ok l /\ from_map_elems t l = Ok xs.
+Proof.
+  induction 1 as [|x e xs es (s & Hp & Hd & He) _ (l & Hl & Hx)].
+  - exists []. split; reflexivity.
+  - exists (s :: l). split.
+    + cbn [decode_segments]. rewrite (decode_segment_enc _ _ He Hd). cbn [bind]. rewrite Hl. reflexivity.
+    + cbn [from_map_elems]. rewrite (from_map_scalar_parsed _ _ _ Hp). cbn [bind]. rewrite Hx. reflexivity.
+Qed.
 
 Lemma wire_delivers_bind kind v w :
   wire_delivers kind v w ->
   exists vv, bind_var w = Ok vv /\ from_map_field kind vv = Ok v.
 Proof.
-  intros H. destruct H as [t p x s e Hp Hok Hd He|t x s e Hok Hd He|l es Hall].
+  intros H. destruct H as [t p x s e Hp Hok Hd He|t x s e Hok Hd He|t xs es Hall].
   - exists (VOne s). cbn [bind_var]. rewrite (decode_segment_enc _ _ He Hd).
     split; [reflexivity|]. unfold from_map_field.
     destruct p; try congruence; rewrite (from_map_scalar_parsed _ _ _ Hok); reflexivity.
   - exists (VOne s). cbn [bind_var]. rewrite (decode_segment_enc _ _ He Hd).
     split; [reflexivity|]. unfold from_map_field.
     rewrite (from_map_scalar_parsed _ _ _ Hok). reflexivity.
-  - exists (VMany l). cbn [bind_var]. rewrite (decode_segments_enc _ _ Hall).
-    split; reflexivity.
+  - destruct (seq_delivers_decode _ _ _ Hall) as (l & Hl & Hx).
+    exists (VMany l). cbn [bind_var]. rewrite Hl. split; [reflexivity|].
+    cbn [from_map_field as_seq bind]. rewrite Hx. reflexivity.
 Qed.
 
 Lemma bind_vars_ok : forall ws,
@@ -787,7 +845,7 @@ Proof.
       apply client_fields_keys in E. congruence. }
     constructor.
     + cbn [fst snd] in *. rewrite assoc_app.
-      destruct kind as [t p| |]; cbn [q_typed] in Hty; try tauto.
+      destruct kind as [t p|t|]; cbn [q_typed] in Hty; try tauto.
       destruct p as [| |d]; destruct v as [x|[x|]|l]; try tauto; cbn [client_field assoc];
         rewrite ?str_eqb_refl, ?Hnone.
       * destruct Hty as [H8 Hok].
@@ -1424,7 +1482,7 @@ Section StructDeErrors.
       + destruct (finish sp filled) as [vs|e1] eqn:Hf; cbn [bind]; [discriminate|].
         intros [= <-]. eapply IH, Hf.
       + intros [= <-]. unfold missing in Hm.
-        destruct kind as [t [| |d]| |]; try discriminate; injection Hm as <-; eauto.
+        destruct kind as [t [| |d]|t|]; try discriminate; injection Hm as <-; eauto.
   Qed.
 
   Lemma struct_de_err sp entries e :
@@ -1566,11 +1624,13 @@ Lemma from_map_field_not_stub kind v :
   kind <> KStub -> from_map_field kind v <> Err MStub.
 Proof.
   intros Hk. unfold from_map_field, from_map_scalar.
-  destruct kind as [t p| |]; [| |congruence].
+  destruct kind as [t p|t|]; [| |congruence].
   - destruct v as [s|l]; cbn [as_value bind].
     + destruct p, t; destruct (parse_scalar _ s); cbn [bind]; discriminate.
     + destruct p; discriminate.
-  - destruct v; cbn [as_seq bind]; discriminate.
+  - destruct v as [s|l]; cbn [as_seq bind]; [discriminate|].
+    destruct (from_map_elems t l) as [xs|e] eqn:E; cbn [bind]; [discriminate|].
+    destruct (from_map_elems_err _ _ _ E) as [->| ->]; discriminate.
 Qed.
 
 Lemma from_map_not_stub sp vars : no_stub sp = true -> from_map sp vars <> Err MStub.
@@ -1781,16 +1841,18 @@ Proof.
       intros [= <-]. destruct (IH _ _ Hf) as (n & k & Hin & Hn & He).
       exists n, k. split; [right; exact Hin|split; assumption].
     + intros [= <-]. exists name, kind. split; [left; reflexivity|]. split; [exact Ha|].
-      unfold missing in Hm. destruct kind as [t [| |d]| |]; try discriminate; injection Hm as <-; reflexivity.
+      unfold missing in Hm. destruct kind as [t [| |d]|t|]; try discriminate; injection Hm as <-; reflexivity.
 Qed.
 
 Lemma from_map_field_not_missing kind v k : from_map_field kind v <> Err (MMissing k).
 Proof.
-  unfold from_map_field, from_map_scalar. destruct kind as [t p| |].
+  unfold from_map_field, from_map_scalar. destruct kind as [t p|t|].
   - destruct v as [s|l]; cbn [as_value bind].
     + destruct p, t; destruct (parse_scalar _ s); cbn [bind]; discriminate.
     + destruct p; discriminate.
-  - destruct v; cbn [as_seq bind]; discriminate.
+  - destruct v as [s|l]; cbn [as_seq bind]; [discriminate|].
+    destruct (from_map_elems t l) as [xs|e] eqn:E; cbn [bind]; [discriminate|].
+    destruct (from_map_elems_err _ _ _ E) as [->| ->]; discriminate.
   - discriminate.
 Qed.
 
@@ -2080,4 +2142,50 @@ Corollary multipart_boundary_extracted T S h0 os b :
 Proof.
   intros HT HS Hh0 Hos Hb Hh. cbn [extract_multipart]. rewrite Hh.
   rewrite (multipart_boundary_ows _ _ _ _ _ HT HS Hh0 Hos Hb). reflexivity.
+Qed.
+
+
+Lemma bind_var_many es vv : bind_var (WMany es) = Ok vv -> exists l, decode_segments es = Ok l /\ vv = VMany l.
+Proof.
+  cbn [bind_var]. destruct (decode_segments es) as [l|e]; cbn [bind]; [|discriminate].
+  intros [= <-]. eauto.
+Qed.
+
+(* C10: an ill-typed element anywhere in a wildcard variable's sequence *)
+Theorem path_bad_seq_element_refused sp ws x es l s t :
+  wf_spec sp = true -> no_stub sp = true -> names_distinct (map fst ws) = true ->
+  In (x, WMany es) ws -> decode_segments es = Ok l -> In s l ->
+  assoc x sp = Some (KSeq t) -> parse_scalar t s = None ->
+  exists err, extract_path sp ws = Err err /\ xerr_status err = Some 400.
+Proof.
+  intros Hwf Hns Hd Hin Hdec Hs Hsp Hbad.
+  destruct (extract_path sp ws) as [vals|err] eqn:E.
+  2:{ exists err. split; [reflexivity|]. eapply path_errors_400; eassumption. }
+  exfalso. unfold extract_path in E.
+  destruct (bind_vars ws) as [vars|e0] eqn:Hb; cbn [bind] in E; [|discriminate].
+  destruct (bind_vars_members _ _ Hb) as [Hk Hm].
+  destruct (Hm _ _ Hin) as (vv & Hvv & Hiv).
+  destruct (bind_var_many _ _ Hvv) as (l' & Hl' & ->). rewrite Hdec in Hl'. injection Hl' as <-.
+  assert (Hdv : names_distinct (map fst vars) = true) by (rewrite Hk; exact Hd).
+  destruct (to_btree_spec vars Hdv) as [Hdb Hab].
+  assert (Hie : In (x, VMany l) (to_btree vars)).
+  { apply assoc_In. rewrite Hab. apply assoc_distinct; assumption. }
+  assert (Hf : is_ok (from_map_field (KSeq t) (VMany l)) = false).
+  { cbn [from_map_field as_seq bind].
+    destruct (from_map_elems_bad t l s Hs Hbad) as [e He]. rewrite He. reflexivity. }
+  destruct (refused_bad_value varval from_map_field from_map_ignore sp (to_btree vars)
+              x (VMany l) _ Hwf Hie Hsp Hf) as [m Hm'].
+  unfold http_extract_path_params, from_map in E. rewrite Hm' in E.
+  destruct m; discriminate.
+Qed.
+
+(* soundness: what a handler gets in a wildcard sequence is, element by
+   element, the parse of the decoded segment at that position *)
+Theorem seq_field_sound t l v :
+  from_map_field (KSeq t) (VMany l) = Ok v ->
+  exists xs, v = FvSeq xs /\ Forall2 (fun s x => parse_scalar t s = Some x) l xs.
+Proof.
+  cbn [from_map_field as_seq bind].
+  destruct (from_map_elems t l) as [xs|e] eqn:E; cbn [bind]; [|discriminate].
+  intros [= <-]. exists xs. split; [reflexivity|]. apply from_map_elems_ok_iff, E.
 Qed.
